@@ -262,8 +262,9 @@ def rule_utc(ctx):
         t = norm(first.test)
         b = " ; ".join(norm(s) for s in first.body)
         e = " ; ".join(norm(s) for s in first.orelse)
-        ok = "%s.tzinfo is None" % p in t and "utcoffset(%s) is None" % p in t and "pytz.utc.localize(%s)" % p in b \
-            and "%s.astimezone(pytz.utc)" % p in e
+        naive = isinstance(first.test, ast.BoolOp) and isinstance(first.test.op, ast.Or) and sorted(norm(v) for v in first.test.values) == sorted(
+            ["%s.tzinfo is None" % p, "%s.tzinfo.utcoffset(%s) is None" % (p, p)])
+        ok = naive and "pytz.utc.localize(%s)" % p in b and "%s.astimezone(pytz.utc)" % p in e
         if ok:
             zvar = norm(first.body[0].targets[0])
             ok = norm(first.orelse[0].targets[0]) == zvar
